@@ -113,6 +113,44 @@ example : IsPrim (⟨.triangle, polygonTris 2 3 false [true, false, true], [], [
     (polygonVerts 2 3) (polygonTris 2 3 false [true, false, true]) :=
   ⟨rfl, rfl, by simp, by simp [polygonVerts]⟩
 
+/-- **every extrusion entry point, all parameters, both branches**: whatever the path length, side count, closing
+    flag and winding flags, each extrusion either rejects (`none`, exactly for the stated parameter ranges) or yields a
+    vertex count `n` and an index list with every index `< n` and a multiple of three indices. -/
+theorem extrusions_total (pathLen sides : Nat) (closed : Bool) (flips : List Bool) :
+    (extrudePolygon? pathLen sides closed flips = none ↔ (pathLen < 2 ∨ sides < 3)) ∧
+    (∀ n tris, extrudePolygon? pathLen sides closed flips = some (n, tris) → (∀ i ∈ tris, i < n) ∧ tris.length % 3 = 0) ∧
+    (extrudeShape? pathLen sides closed = none ↔ pathLen < 2) ∧
+    (∀ n tris, extrudeShape? pathLen sides closed = some (n, tris) → (∀ i ∈ tris, i < n) ∧ tris.length % 3 = 0) ∧
+    (extrudeLine? pathLen = none ↔ pathLen < 2) ∧
+    (∀ n tris, extrudeLine? pathLen = some (n, tris) → (∀ i ∈ tris, i < n) ∧ tris.length % 3 = 0) ∧
+    ((∀ i ∈ (screw pathLen sides).2, i < (screw pathLen sides).1) ∧ (screw pathLen sides).2.length % 3 = 0) := by
+  refine ⟨?_, ?_, ?_, ?_, ?_, ?_, ?_⟩
+  · unfold extrudePolygon?; split <;> simp_all
+  · intro n tris h
+    unfold extrudePolygon? at h
+    split at h
+    · cases h
+    · cases h; exact ⟨polygonTris_lt _ _ _ _, polygonTris_len _ _ _ _⟩
+  · unfold extrudeShape?; split <;> simp_all
+  · intro n tris h
+    unfold extrudeShape? at h
+    split at h
+    · cases h
+    · cases h; exact ⟨extrudeShapeTris_lt _, extrudeShapeTris_len _ _ _⟩
+  · unfold extrudeLine?; split <;> simp_all
+  · intro n tris h
+    unfold extrudeLine? at h
+    split at h
+    · cases h
+    · cases h; exact ⟨extrudeLineTris_lt _, extrudeLineTris_len _⟩
+  · unfold screw
+    split
+    · simp
+    · exact ⟨screwTris_lt _ _, screwTris_len _ _⟩
+
+example : ∃ n tris, extrudePolygon? 3 4 true [true, false] = some (n, tris) ∧ n = 15 := ⟨_, _, rfl, rfl⟩
+example : extrudePolygon? 1 4 false [] = none ∧ extrudePolygon? 5 2 false [] = none := ⟨rfl, rfl⟩
+
 theorem quad_wf {m : MeshVal α} (h : IsPrim m quadVerts quadTris) : WF m :=
   prim_wf h quadTris_ok.1 quadTris_ok.2
 theorem cube_wf {m : MeshVal α} (h : IsPrim m cubeVerts cubeTris) : WF m :=
